@@ -334,6 +334,11 @@ func consume(c *core.Ctx, stream []byte, plan core.ReaderPlan, maxCalls int) {
 	src, plan := drawSource(c, stream, plan)
 	sr := srcCounter{src}
 	d := verifhook.NewCborDecoder(src.r)
+	consumeLoop(c, d, sr, stream, plan, maxCalls)
+}
+
+// consumeLoop drives decoder d (reading the given stream through sr) with drawn calls.
+func consumeLoop(c *core.Ctx, d *verifhook.CborDecoder, sr srcCounter, stream []byte, plan core.ReaderPlan, maxCalls int) {
 	eff := effective(stream, plan)
 	clean := plan.ErrAt < 0
 	// history: byte strings handed out earlier must stay intact while decoding continues
@@ -341,6 +346,11 @@ func consume(c *core.Ctx, stream []byte, plan core.ReaderPlan, maxCalls int) {
 	var earlier []kept
 	defer func() {
 		if c.Oracle("C12") {
+			// the caller extends the byte strings it was given (append is legal on any slice):
+			// that must not reach into other results
+			for _, k := range earlier {
+				_ = append(k.got, 0xee, 0xee, 0xee, 0xee, 0xee, 0xee, 0xee, 0xee)
+			}
 			for i, k := range earlier {
 				if !bytes.Equal(k.got, k.want) {
 					c.Violation("result-changed-later", "DecodeByteString", "the byte string returned by call %d was modified by later calls", i)
@@ -797,6 +807,41 @@ func TestConcurrentDecoders(t *testing.T) {
 			}
 			c.Outcome("nt:done")
 			c.Sig("%s", sched)
+		})
+	})
+}
+
+// TestReuseAfterError: one Decoder over a bytes.Buffer that the caller resets and
+// refills per message. A message may be cut short (the call in progress fails);
+// the next message, complete, must decode exactly as it would with a fresh
+// decoder: nothing of the failed call may linger.
+func TestReuseAfterError(t *testing.T) {
+	rapid.Check(t, func(t *rapid.T) {
+		core.Run(t, "cbor/reuse-after-error", func(c *core.Ctx) {
+			buf := &bytes.Buffer{}
+			d := verifhook.NewCborDecoder(buf)
+			rounds := c.Int("messages", 2, 4)
+			for r := 0; r < rounds; r++ {
+				stream, items := buildStream(c, 3)
+				if r < rounds-1 && len(stream) > 1 && c.Chance("cutShort", 2, 3) {
+					// cut inside a head's argument bytes or inside string content
+					it := items[c.Pick("cut.item", len(items))]
+					end := len(stream)
+					cut := it.off + 1 + c.Int("cut.into", 0, 9)
+					if cut >= end {
+						cut = end - 1
+					}
+					stream = stream[:cut]
+					c.Fault("message-cut-short")
+				}
+				buf.Reset()
+				buf.Write(stream)
+				data := stream
+				sr := srcCounter{source{buf, func() int { return len(data) - buf.Len() }}}
+				c.Event("message %d: %d bytes", r, len(stream))
+				consumeLoop(c, d, sr, stream, core.ReaderPlan{ErrAt: -1}, 8)
+			}
+			c.Sig("rounds%d", rounds)
 		})
 	})
 }
